@@ -8,6 +8,7 @@ dataflow facts about CompilationScope::resolve_overload (syntax tree):
   R05.5  candidate collection (get_item) appends own overloads before the parent's and nothing indexes candidates by position
   R05.6  three tiers: dynamic (factory) candidates must rank below generic static candidates
   R05.7  the own generic-parameter list of a declaration (which decides its tier) does not depend on inherited generic names
+  R05.8  get_item hides a parent overload of the recursing name only while one of its forward requirements is unfulfilled
 """
 import re
 from .lib import astq
@@ -435,6 +436,9 @@ def run(ctx):
     # ---------------- R05.7
     own_generics(ctx)
 
+    # ---------------- R05.8
+    recourse_filter(ctx)
+
 
 def own_generics(ctx):
     """R05.7: which tier an overload belongs to is read off its own generic-parameter list (XFuncSpec::is_generic).  That list must
@@ -466,3 +470,68 @@ def own_generics(ctx):
             if not ok:
                 r7.fail('parse_function_header/own-generics-depend-on-inherited', mirq.site(b, i, j), 'the list of a function\'s own generic parameters is computed from the generic names inherited from the enclosing functions as well: a nested generic function whose parameter names coincide with the enclosing ones gets a different list, hence a different rank in overload resolution, than its alpha-renamed twin')
     r7.need(1)
+
+
+def recourse_filter(ctx):
+    """R05.8: while the body of a function f is compiled, get_item hides from the candidates of the name f exactly those parent
+    overloads of the same type that still wait for a forward declaration (the declaration this very definition fulfils).  Decided as
+    a table: the closure handed to any / all is evaluated abstractly on a fulfilled and on an unfulfilled requirement, the side of
+    the test on which the overload is not pushed is read off the CFG, and the four abstract requirement lists [], [fulfilled],
+    [unfulfilled], [fulfilled, unfulfilled] must give: keep, keep, hide, hide."""
+    from .lib import absint, mirq
+    from .lib.facts import strip_generics, callee_name, op_place, op_local
+    mir = ctx.mir
+    r8 = ctx.rule('R05.8', 'get_item hides a parent overload of the recursing name only if one of its forward requirements is unfulfilled')
+    bs = mir.find('compilation_scope::CompilationScope::get_item')
+    if len(bs) != 1:
+        r8.fail('anchor/get_item', 'src/compilation_scope.rs', 'get_item not found')
+        r8.need(4)
+        return
+    b = bs[0]
+    found = 0
+    for bb, t in b.calls():
+        nm = strip_generics(t.get('decl') or t.get('callee') or '')
+        if nm not in ('std::iter::Iterator::any', 'std::iter::Iterator::all') or len(t['args']) != 2 or t.get('target') is None:
+            continue
+        k, v = mirq.chase_op(b, t['args'][1])
+        if not (k == 'rv' and v[2]['rv']['k'] == 'agg' and v[2]['rv'].get('ak') == 'closure'):
+            continue
+        cb = mir.by_id.get(v[2]['rv'].get('def'))
+        if cb is None or not any(any(isinstance(e, dict) and e.get('n') == 'fulfilled' for e in p['p']) for i, j, s in cb.stmts() for m_, p in mirq.places_in_stmt(s)):
+            continue
+        found += 1
+        # (1) what the closure answers for a fulfilled / an unfulfilled requirement
+        answers = {}
+        for ful in (True, False):
+            def foracle(p, env, ful=ful):
+                if p['p'] and isinstance(p['p'][-1], dict) and p['p'][-1].get('n') == 'fulfilled':
+                    return ful
+                return absint.UNKNOWN
+            rs = absint.returns(mir, cb, {}, lambda tm, vals, env: absint.UNKNOWN, field_oracle=foracle)
+            answers[ful] = next(iter(rs)) if len(rs) == 1 and isinstance(next(iter(rs)), bool) else None
+        # (2) on which value of the any / all result can the loop go on without pushing the overload?
+        pushes = {pb for pb, pt in b.calls() if strip_generics(pt.get('callee') or pt.get('decl') or '').endswith('Vec::push')}
+        heads = [h for h in b.dominators().get(bb, ()) if h != bb and h in b.reachable(t['target']) and b.term(h)['k'] == 'call' and strip_generics(b.term(h).get('decl') or b.term(h).get('callee') or '').endswith('::next')]
+        hide_on = None
+        if heads:
+            h = max(heads, key=lambda x: len(b.dominators().get(x, ())))
+            pol = mirq.bool_polarity(b, t['dest']['l'], bb, None, h, avoid=pushes)
+            hide_on = pol
+        ok_all = answers[True] is not None and answers[False] is not None and hide_on is not None
+        table = {}
+        if ok_all:
+            for label, lst in (('no requirement', []), ('a fulfilled requirement', [True]), ('an unfulfilled requirement', [False]), ('a fulfilled and an unfulfilled requirement', [True, False])):
+                vals = [answers[x] for x in lst]
+                res = any(vals) if nm.endswith('any') else all(vals)
+                table[label] = (res == hide_on)
+        want = {'no requirement': False, 'a fulfilled requirement': False, 'an unfulfilled requirement': True, 'a fulfilled and an unfulfilled requirement': True}
+        for label, w in want.items():
+            got = table.get(label)
+            ok = ok_all and got == w
+            r8.inst({'overload_with': label, 'hidden': got, 'expected': w}, ok=ok, kind=(bb, label))
+            if not ok:
+                r8.fail('get_item/recourse-filter/%s' % label.replace(' ', '-'), mirq.site(b, bb), 'inside the body of a function, a parent overload of the same name and type with %s is %s (expected %s): ordinary overloads of an enclosing scope disappear from the candidates (no ambiguity is reported, the answer depends on where the call sits) or pending declarations stay visible'
+                        % (label, 'hidden' if got else 'kept' if got is not None else 'undecided', 'hidden' if w else 'kept'))
+    if not found:
+        r8.fail('anchor/get_item/filter', mirq.site(b, 0), 'the any / all test over the forward requirements of a parent overload was not found')
+    r8.need(4)
